@@ -493,7 +493,7 @@ def generate(rng, seed, tier='quick'):
                     if present:
                         kk = k.upper() if style == 'upper' else (k.capitalize() if rng.random() < 0.2 else k)
                         sep = ' = ' if style == 'spaced' else rng.choice(['=', '=', ' =', '= ', ': '])
-                        ind = rng.choice(['', '  ', '\t', '    ']) if style == 'indented' else ''
+                        ind = rng.choice(['', '  ', '\t', '    ', '\x0c', '\xa0 ', '\x0b']) if style == 'indented' else ''
                         lines.append(f'{ind}{kk}{sep}{vals[k]}')
                     elif style == 'comments' and rng.random() < 0.5:
                         lines.append(f';{k}={vals[k]}')
